@@ -54,7 +54,12 @@ def modelCalls (lower : Str → Str) (accept : Nat → Str → Bool) (cand : Nat
 def callsTok (l : List Str) : String :=
   toString l.length ++ ":" ++ ",".intercalate (l.map hexOfStr)
 
-def run (inp obs : List String) : Verdict :=
+def run (inp obsAll : List String) : Verdict :=
+  -- optional last token `T:<hex>,..`: the true whole-string lower-casings of the offered candidates
+  let tTok : Option String := match obsAll.getLast? with
+    | some t => if t.startsWith "T:" then some (t.drop 2).toString else none
+    | none => none
+  let obs : List String := if tTok.isSome then obsAll.dropLast else obsAll
   match inp with
   | [_, preT, sufT, nameT, upT, lowT, modeT] =>
     match unhexStr preT, unhexStr sufT, unhexStr nameT, unhexStr upT, parseLowMap lowT,
@@ -76,7 +81,12 @@ def run (inp obs : List String) : Verdict :=
         | ["ok", _, cT] => (parseCalls cT).getD []
         | [_, cT] => (parseCalls cT).getD []
         | _ => []
-      let obsTable : List (Str × Str) := obsCalls.map fun l => (sig l, l)
+      -- the table of TRUE lower-casings sent by the harness when there is one (so a function that lower-cases
+      -- differently from `str::to_lowercase` disagrees with the model), else what the closure saw
+      let trueLower : List Str := match tTok with
+        | some t => (parseHexList t).getD obsCalls
+        | none => obsCalls
+      let obsTable : List (Str × Str) := trueLower.map fun l => (sig l, l)
       let hasSigma := name.any (· == 'Σ')
       let lower : Str → Str := fun s =>
         let pc := lowerPC s
